@@ -369,3 +369,23 @@ def run(chk):
     clones.rule_unreachable(chk, 'U1', ('mgr',), floor=20)
     from . import twins
     twins.rule_common_flag(chk, P, 'Z1', floor=6)
+    run_lanes(chk, P)
+
+
+def run_lanes(chk, P):
+    """V1 / V2: lane association in the assembled multi-buffer routines (imbv/lanes.py)"""
+    from .. import lanes
+    v1 = chk.rule('V1', 'a vector stored through the pointer of lane m of a per-lane pointer array (args.out[m], args.digest...) holds data of lane m '
+                        'only — followed through the transposition networks (unpack / shuffle / insert / extract modelled exactly, everything else '
+                        'element-wise); stores whose value is unknown are not decided', floor=400)
+    v2 = chk.rule('V2', 'a per-lane pointer written back into a pointer array goes into the element it was loaded from', floor=20)
+    res = lanes.analyse_all(P)
+    for name, (rel, L) in sorted(res.items()):
+        vec = [f for f in L.findings if f[1] == 'vec']
+        ptr = [f for f in L.findings if f[1] == 'ptr']
+        v1.instances += max(0, L.checked_stores - 1)
+        v1.check(not vec, name, rel, '%s: %s' % (name, '; '.join('%#x %s' % (a, m) for a, _, m in vec[:4])))
+        if L.checked_ptr_stores:
+            v2.instances += max(0, L.checked_ptr_stores - 1)
+            v2.check(not ptr, name, rel, '%s: %s' % (name, '; '.join('%#x %s' % (a, m) for a, _, m in ptr[:4])))
+    chk.extra['lane_functions'] = len(res)
